@@ -107,9 +107,13 @@ Definition sem_class (f : string) : semclass :=
   else if mem_str f ["label_replace"; "label_join"] then SCDst
   else SCNone.
 
+(** the engine unwraps the parentheses around call arguments before evaluating the call (unwrapParenExpr) *)
+Fixpoint strip_parens (e : expr) : expr :=
+  match e with EParen e' => strip_parens e' | _ => e end.
+
 (** engine's createLabelsForAbsentFunction *)
 Definition absent_labels (arg : expr) : labelset :=
-  let ms := match arg with ESel ms => Some ms | EMatrix (ESel ms) => Some ms | _ => None end in
+  let ms := match strip_parens arg with ESel ms => Some ms | EMatrix (ESel ms) => Some ms | _ => None end in
   match ms with
   | None => []
   | Some ms =>
